@@ -187,10 +187,11 @@ pub fn gen_vol(r: &mut SimRng, kind: u8) -> u32 {
         1 => r.range(1, 10) as u32,
         2 => r.range(1, 1_000_000) as u32,
         _ => {
-            if r.chance(0.5) {
-                r.range(1 << 24, 1 << 29) as u32
-            } else {
-                r.range(1, 1000) as u32
+            // whales: a few of them bring one side close to the 2^32 bound on outstanding volume
+            match r.below(4) {
+                0 => r.range(1 << 24, 1 << 29) as u32,
+                1 => r.range(1 << 29, 3 << 30) as u32,
+                _ => r.range(1, 1000) as u32,
             }
         }
     }
@@ -297,7 +298,7 @@ impl<'a> Gen<'a> {
             1 => head_vol,
             2 => levels[0].1,
             3 => upto,
-            4 => upto.saturating_sub(self.r.below(upto.min(3))).max(1),
+            4 => upto.saturating_sub(self.r.below(upto.min(3).max(1))).max(1),
             _ => total + self.r.range(1, 5),
         };
         let vol = vol.clamp(1, PMAX as u64 / 4) as u32;
